@@ -19,7 +19,7 @@ from . import stubs
 from .array import SymArray, is_symbolic, is_complex_array, to_symarray, dtype_kind, SHADOW
 from .number import Sym, SymError, active
 
-REPO_SRC = "/repo/src"
+from .paths import REPO_SRC
 
 _EXCLUDE_DEFAULT = ("spectrum.window", "spectrum.datasets", "spectrum.errors")
 
@@ -59,10 +59,23 @@ def sym_ones(shape, dtype=float, **kw):
     return SymArray.filled(shape, 1, cplx=(k == 'c'))
 
 
+def _real_dtype(dtype):
+    """shadowed builtins (float/complex/int replacements) -> the numpy dtype they stand for"""
+    if dtype is None:
+        return None
+    try:
+        k = SHADOW.get(dtype)
+    except TypeError:
+        k = None
+    if k:
+        return {'f': np.float64, 'c': np.complex128, 'i': np.int64}[k]
+    return dtype
+
+
 def sym_array(obj, dtype=None, **kw):
     if is_symbolic(obj):
         return SymArray.make(obj, cplx=(dtype is not None and _kind_of(dtype) == 'c'))
-    return np.array(obj, dtype=dtype, **kw)
+    return np.array(obj, dtype=_real_dtype(dtype), **kw)
 
 
 def sym_asarray(obj, dtype=None, **kw):
@@ -73,6 +86,8 @@ def sym_asarray(obj, dtype=None, **kw):
         k = _kind_of(dtype)
         if k in 'cf' and ((k == 'c') == obj.is_complex()):
             return obj
+    if not is_symbolic(obj):
+        return np.asarray(obj, dtype=_real_dtype(dtype))      # concrete data: numpy's own (non-copying) semantics
     return sym_array(obj, dtype)
 
 
